@@ -371,10 +371,15 @@ fn history_case(r: &mut Rng, stats: &mut Stats) -> Result<u64, String> {
 				}
 				class |= 1 << 6;
 			}
-			let x = ((want_d as f64 - i0) / (i1 - i0)).clamp(0.0, 1.0);
-			let db = o0 as f64 + (o1 as f64 - o0 as f64) * ease_ref(easing, x);
-			let want = DC as f64 * db_to_amp(db);
-			if (last as f64 - want).abs() > 2e-4 * want.max(1e-3) {
+			let law = |dd: f64| {
+				let x = ((dd - i0) / (i1 - i0)).clamp(0.0, 1.0);
+				DC as f64 * db_to_amp(o0 as f64 + (o1 as f64 - o0 as f64) * ease_ref(easing, x))
+			};
+			let want = law(want_d as f64);
+			// measured conditioning: the distance is an f32 computed from f32 positions (steep easings next to a range end)
+			let dd = 4e-6 * (want_d as f64 + lp.length() as f64 + 1.0);
+			let cond = (law(want_d as f64 + dd) - law(want_d as f64 - dd)).abs();
+			if (last as f64 - want).abs() > 2e-4 * want.max(1e-3) + cond {
 				return Err(format!("volume mapped from the listener distance ({}): output {} but map(distance {}) gives {} (variant {}: 0 own track, 1 descendant track, 2 nested spatial track)", format!("{:?}", map).chars().take(160).collect::<String>(), last, want_d, want, which));
 			}
 			stats.distance_param_checks += 1;
